@@ -271,6 +271,29 @@ def forge_all(ck, inj, rng, thorough):
             b = bytearray(base[:cut] if cut < 0 else base + bytes(cut))
             b[24:28] = len(b).to_bytes(4, 'big')
             inj.inject(f'resize-with-length.{bname}', bytes(b), (cut,))
+    # ---- (b2) forgeries that COLLIDE with an authentic datagram the victim has seen under a non-cryptographic digest (CRC-32, sum, XOR of the octets, the
+    # length plus the checksum field): a shortcut that recognises "the same datagram again" by such a fingerprint instead of verifying it answers these
+    for bname, base in bases + [('replay-earlier', g) for g in got[-3:-1]]:
+        for resp in (False, True):
+            exp = sa.my_msg_id if resp else sa.peer_msg_id
+            flags = (0x08 if peer_is_init else 0) | (0x20 if resp else 0)
+            prefixes = []
+            for pls in ([], [{'type': 42, 'critical': False, 'proto': 1, 'spis': []}]):
+                m = {'spi_i': spi_i, 'spi_r': spi_r, 'major': 2, 'minor': 0, 'exch': 37, 'mid': exp, 'flags': flags, 'payloads': pls}
+                prefixes.append(('clear', bytearray(codec.encode_clear(m))))
+            mod_ = bytearray(base)
+            mod_[20:24] = ((int.from_bytes(base[20:24], 'big') + 1) % 2 ** 32).to_bytes(4, 'big')
+            prefixes.append(('authentic-with-the-next-message-id', mod_))
+            for pname, pre in prefixes:
+                for dname, _d in gen.digest_collisions(bytes(base), bytes(pre)):
+                    # the length field of the forgery names its real length (recomputed after the header changed: a CRC patch covers the header as sent)
+                    pre2 = bytearray(pre)
+                    pre2[24:28] = (len(_d)).to_bytes(4, 'big')
+                    d2 = dict(gen.digest_collisions(bytes(base), bytes(pre2))).get(dname)
+                    if d2 is None or d2 == bytes(base):
+                        continue
+                    ck.count('collision_forgeries')
+                    inj.inject(f'digest-collision.{dname}.{pname}.{bname}', d2, (resp,))
     # ---- (c) protected with other keys
     integ_id = inj.keys[0]
     for exch in (35, 36, 37):
@@ -449,6 +472,7 @@ def run(ck):
 
 def verdict(ck):
     c = ck.counters
+    ck.floor('forgeries colliding with an authentic datagram under a non-cryptographic digest', c['collision_forgeries'], 300)
     ck.floor('injections judged', c['inject.loop'] + c['inject.dispatch'] + c['inject.sa'], 20000)
     ck.floor('loop turns with an authentic request and a forgery ready on two sockets, only the request answered', c['same_turn.only_the_authentic_request_answered'], 30)
     ck.floor('keyed states reached', len(ck.sets['states']), len(CATALOGUE))
